@@ -216,6 +216,36 @@ theorem flatL_inv (n0 : Nat) (B0 : Bnds) (l : LE) (S : FS) (hI : Inv n0 B0 S) (h
     obtain ⟨j1, j2, j3, j4⟩ := mkDef_logical n0 B0 (.not (flatL l S).1) (flatL l S).2 i1
       (by intro v hv'; simp [Fun.vars] at hv'; subst hv'; exact r1) rfl (by simpa [argTyped] using b1) rfl
     exact ⟨by simpa [flatL] using j1, by simpa [flatL] using e1.trans j2, by simpa [flatL] using j3, by simpa [flatL] using j4⟩
+  | iff a b =>
+    simp only [LE.vok, Bool.and_eq_true] at hv
+    obtain ⟨i1, e1, r1, _⟩ := flatL_inv n0 B0 a S hI hv.1
+    obtain ⟨i2, e2, r2, _⟩ := flatL_inv n0 B0 b (flatL a S).2 i1 hv.2
+    have hraw : ∀ p ∈ [((1 : Rat), (flatL a S).1)] ++ negLin [((1 : Rat), (flatL b (flatL a S).2).1)],
+        p.2 < (flatL b (flatL a S).2).2.next := by
+      intro p hp
+      simp only [List.mem_append] at hp
+      rcases hp with hp | hp
+      · simp only [List.mem_singleton] at hp; subst hp; exact Nat.lt_of_lt_of_le r1 e2.1
+      · exact negLin_bound (l := [((1 : Rat), (flatL b (flatL a S).2).1)])
+          (fun q hq => by simp only [List.mem_singleton] at hq; subst hq; exact r2) p hp
+    have hbody := condBody_bound hraw
+    obtain ⟨j1, j2, j3, j4⟩ := mkDef_logical n0 B0
+      (normCmp (leadNeg ([(1, (flatL a S).1)] ++ negLin [(1, (flatL b (flatL a S).2).1)])) .eq
+        (condBody ([(1, (flatL a S).1)] ++ negLin [(1, (flatL b (flatL a S).2).1)])) (0 - 0))
+      (flatL b (flatL a S).2).2 i2
+      (by
+        intro v hv'
+        unfold normCmp at hv'
+        split at hv'
+        · simp only [Fun.vars, List.mem_map] at hv'
+          obtain ⟨p, hp, rfl⟩ := hv'
+          exact negLin_bound hbody p hp
+        · simp only [Fun.vars, List.mem_map] at hv'
+          obtain ⟨p, hp, rfl⟩ := hv'
+          exact hbody p hp)
+      (by unfold normCmp; split <;> rfl) (by unfold normCmp; split <;> rfl) (by unfold normCmp; split <;> rfl)
+    exact ⟨by simpa [flatL] using j1, by simpa [flatL] using (e1.trans e2).trans j2, by simpa [flatL] using j3,
+      by simpa [flatL] using j4⟩
 
 theorem flatLs_inv (n0 : Nat) (B0 : Bnds) (ls : LEs) (S : FS) (hI : Inv n0 B0 S) (hv : ls.vok n0 = true) :
     Inv n0 B0 (flatLs ls S).2 ∧ Ext S (flatLs ls S).2 ∧
